@@ -8,6 +8,7 @@ import (
 	"iter"
 	"strconv"
 	"strings"
+	"sync/atomic"
 	"time"
 
 	eventbus "github.com/jilio/ebu"
@@ -35,6 +36,9 @@ type SQLiteStore struct {
 var _ eventbus.EventStore = (*SQLiteStore)(nil)
 var _ eventbus.EventStoreStreamer = (*SQLiteStore)(nil)
 var _ eventbus.SubscriptionStore = (*SQLiteStore)(nil)
+
+// memDBSeq numbers in-memory databases so that each store gets its own
+var memDBSeq atomic.Int64
 
 // dbOpener is used to open database connections, injectable for testing
 var dbOpener = sql.Open
@@ -64,7 +68,8 @@ func New(path string, opts ...Option) (*SQLiteStore, error) {
 	var dsn string
 	if cfg.path == ":memory:" {
 		// Use shared cache mode for in-memory databases to allow multiple connections
-		dsn = "file::memory:?mode=memory&cache=shared"
+		// (the unique name keeps separately created stores from sharing one database)
+		dsn = fmt.Sprintf("file:ebu-memdb-%d?mode=memory&cache=shared", memDBSeq.Add(1))
 	} else {
 		dsn = fmt.Sprintf("file:%s?_busy_timeout=%d", cfg.path, cfg.busyTimeout.Milliseconds())
 	}
